@@ -382,6 +382,14 @@ def tags(F, res):
             res.add([finding("TAGS", key, where(f), "%s builds redeemers tagged %s instead of %s" % (name, sorted(found), tag))])
 
 
+def r_ctx(F, res):
+    """R-CTX: "data equal to the template's redeemer expression" - the redeemer of an input, mint / burn and withdrawal block is
+    lowered in the context its block was given (rule CTX of C01, the block-level part, re-run for the blocks that carry
+    redeemers): a block that switches context before lowering its fields turns a policy name in a redeemer into an address."""
+    from . import c01
+    c01.block_ctx(F, res, rule="R-CTX", blocks=("tx3_lang::ast::InputBlock", "tx3_lang::ast::MintBlock", "tx3_lang::cardano::WithdrawalBlock"))
+
+
 def run(ctx):
     F = ctx.F
     res = Result("C08")
@@ -399,4 +407,6 @@ def run(ctx):
     siblings(F, res)
     chain(F, res)
     tags(F, res)
+    res.rule("R-CTX", "redeemer-carrying blocks hand their fields the context they were given (no block-level context switch)")
+    r_ctx(F, res)
     return res
